@@ -12,6 +12,8 @@
 #define VERIF_ENV_EXPAND_H
 
 #ifdef VERIF_EXACT_LIBC
+/* byte i of a string, read as unsigned char (the comparison functions compare unsigned bytes) */
+#define VUCH(p, i) (((const unsigned char *) (p))[i])
 size_t strlen(const char *s)
 {
     size_t n = 0;
@@ -24,7 +26,7 @@ int strcmp(const char *a, const char *b)
     size_t i = 0;
     __CPROVER_assert(a != NULL && b != NULL, "strcmp: arguments not NULL");
     while (a[i] && a[i] == b[i]) i++;
-    return (int) (unsigned char) a[i] - (int) (unsigned char) b[i];
+    return (int) VUCH(a, i) - (int) VUCH(b, i);
 }
 int strncmp(const char *a, const char *b, size_t n)
 {
@@ -32,22 +34,22 @@ int strncmp(const char *a, const char *b, size_t n)
     if (n == 0) return 0;
     __CPROVER_assert(a != NULL && b != NULL, "strncmp: arguments not NULL");
     while (i + 1 < n && a[i] && a[i] == b[i]) i++;
-    return (int) (unsigned char) a[i] - (int) (unsigned char) b[i];
+    return (int) VUCH(a, i) - (int) VUCH(b, i);
 }
 int strncasecmp(const char *a, const char *b, size_t n)
 {
     size_t i = 0;
     if (n == 0) return 0;
     __CPROVER_assert(a != NULL && b != NULL, "strncasecmp: arguments not NULL");
-    while (i + 1 < n && a[i] && tolower((unsigned char) a[i]) == tolower((unsigned char) b[i])) i++;
-    return tolower((unsigned char) a[i]) - tolower((unsigned char) b[i]);
+    while (i + 1 < n && a[i] && tolower(VUCH(a, i)) == tolower(VUCH(b, i))) i++;
+    return tolower(VUCH(a, i)) - tolower(VUCH(b, i));
 }
 int strcasecmp(const char *a, const char *b)
 {
     size_t i = 0;
     __CPROVER_assert(a != NULL && b != NULL, "strcasecmp: arguments not NULL");
-    while (a[i] && tolower((unsigned char) a[i]) == tolower((unsigned char) b[i])) i++;
-    return tolower((unsigned char) a[i]) - tolower((unsigned char) b[i]);
+    while (a[i] && tolower(VUCH(a, i)) == tolower(VUCH(b, i))) i++;
+    return tolower(VUCH(a, i)) - tolower(VUCH(b, i));
 }
 char *strcpy(char *d, const char *s)
 {
